@@ -65,7 +65,7 @@ def runC32 (arg : String) : String :=
 
 /-! `c33 <keep> <t0secs> <t0nanos>|<step>;<step>;…` with `step = <o|r|f|F> <secs> <nanos> <ids|->`
 (`F` = a fatal failure provoked for real). Reply: one record per step, `;`-separated:
-`ok=<0|1> cur=<ids|none> ser=<n> ses=<n> cr=<secs.nanos|none> d=<older serials a delta is served from> n=<notifications> done=<secs.nanos|none>`. -/
+`ok=<0|1> cur=<ids|none> ser=<n> ses=<n> cr=<secs.nanos|none> d=<target serials of the retained deltas, newest first|-> n=<notifications> done=<secs.nanos|none>`. -/
 
 def showTime (t : Time) : String := s!"{t.secs}.{t.nanos}"
 
@@ -73,17 +73,11 @@ def showOptTime : Option Time → String
   | none => "none"
   | some t => showTime t
 
-/-- The number of older serials `s < serial` from which `delta_since(s)` serves a delta: the
-direct predecessor, or the target serial of a retained delta (serial 0 is nobody's target). The
-harness observes the retained deltas only through this count. -/
-def servableFrom (h : Hist) : Nat :=
-  ((List.range h.serial).filter (fun s => s + 1 == h.serial || h.deltas.contains s)).length
-
 def showHist (ok : Bool) (h : Hist) : String :=
   let cur := match h.current with
     | none => "none"
     | some l => "[" ++ showCommaNats l ++ "]"
-  s!"ok={showBool ok} cur={cur} ser={h.serial} ses={h.session} cr={showOptTime h.created} d={servableFrom h} n={h.notified} done={showOptTime h.lastUpdateDone}"
+  s!"ok={showBool ok} cur={cur} ser={h.serial} ses={h.session} cr={showOptTime h.created} d={if h.deltas.isEmpty then "-" else showCommaNats h.deltas} n={h.notified} done={showOptTime h.lastUpdateDone}"
 
 def parseStep (s : String) : Option RunStep :=
   match words s with
